@@ -434,6 +434,15 @@ func redactPipelineStage(stage interface{}, redactFieldNames bool, keyPath []str
 					continue
 				}
 			case *orderedmap.OrderedMap[string, any]:
+				if collName, ok := v.(string); ok && redactNamespaces {
+					// string form of a stage that names a collection: {$out: "c"}, {$unionWith: "c"}, {$merge: "c"}
+					collMeta, _ := meta.Get("coll")
+					intoMeta, _ := meta.Get("into")
+					if collMeta == Namespace || intoMeta == Namespace {
+						newMap.Set(redactedKey, HashName(collName))
+						continue
+					}
+				}
 				if subMap, ok := v.(*orderedmap.OrderedMap[string, any]); ok {
 					newSubMap := orderedmap.NewOrderedMap[string, any]()
 					for subEl := subMap.Front(); subEl != nil; subEl = subEl.Next() {
